@@ -242,5 +242,37 @@ for name, com, st, pf in T:
     props += ["(* %s *)\nTheorem %s :\n  %s.\nProof. exact %s_main. Qed.\nPrint Assumptions %s.\n" % (com, name, st, name, name)]
 open("/verif/coq/proof/C04_Proofs_Main.v", "w").write("\n".join(main))
 props.append(open("/verif/harness/C04_gen_examples.v.txt").read())
+
+# ---- round-3 extension: the closed statements are written (and proved) by hand in coq/proof/C04_Proofs_Ext.v;
+# the property theorems are the SAME statement texts, extracted from that file
+import re
+EXT_COMMENTS = {
+ "C04_gamma_closed_form": "gamma_factor (complex_probe.py), for any character E (exp(-i .)) and any real aperture A: gamma(k, q) = A(k) [ A(q-k) E(chi(q-k) - chi(k)) - A(q+k) E(chi(k) - chi(q+k)) ] -- the closed form in terms of the aberration surface at k, k+q, k-q and the aperture (recomputed in float64 against every gamma_factor call of real runs by harness/ext_C04.py)",
+ "C04_gamma_zero_aberration": "zero aberrations (E(chi v) = 1): gamma(k, q) = A(k) (A(q-k) - A(q+k)), a real number (it vanishes where both shifted discs cover k: no phase contrast in the double-overlap region)",
+ "C04_gamma_hermitian": "Hermitian symmetry in q for an even probe (even aperture, even surface: C10, C12, C30, ... but not coma): gamma(k, -q) = - conj(gamma(k, q))",
+ "C04_gamma_power_symmetric": "... hence |gamma|^2 (the power accumulated by obf / mf) is symmetric in q",
+ "C04_gamma_dc_zero": "gamma(k, 0) = 0 for an even probe: the DC term of the ssb / obf / mf numerators vanishes whatever _preprocess left there",
+ "C04_sideband_multiplier_hermitian": "the ssb / obf / mf Fourier multiplier -i conj(gamma(k, q)) / n(q) (n real, symmetric: clip(|gamma|), the norm) is Hermitian in q for an even probe",
+ "C04_parallax_multiplier_hermitian": "the parallax multiplier exp(-i grad_k . q) sign(q) is Hermitian in q (any shift, sub-pixel included; sign real and symmetric)",
+ "C04_hermitian_multiplier_real": "a Hermitian Fourier multiplier maps real images to real images (every grid size): conj DFT / inverse-DFT reflection lemmas",
+ "C04_hermitian_kernel_real_part_lossless": "reconstruct with a multiplier kernel (all five are) whose multiplier x envelope is Hermitian on the index grid, real virtual image: corrected_stack[j] IS the inverse transform over W -- `.real` in `fourier_factor.real / BF_weights` discards nothing (any sub-mask, batch size, upsampling)",
+ "C04_grid_multiplier_hermitian": "from symmetry in the frequency vector to symmetry on the index grid, when the frequency of the reflected index is the negated frequency (odd axis lengths; on an even axis the Nyquist index is its own reflection and fftfreq gives -N/2 there: the hypothesis fails at that row/column only)",
+ "C04_ramp_fftfreq_index": "torch.fft.fftfreq index convention: an integer-shift ramp evaluated at the SIGNED frequency index (k - N above Nyquist, what the code's qxa holds) equals the ramp at the unsigned index k used by C04_parallax_shift",
+ "C04_state_history_independent": "object state: reconstruct reads only what construction fixed and its arguments and writes only corrected_stack, so the k-th call on a used object equals the same call on a fresh object, and the inputs are unchanged (harness/ext_C04.py checks the read / write sets on the real object)",
+ "C04_submask_any_family": "sub-masks that OVERLAP or do not cover the construction mask (outside the recombination claim of the property): the aperture-weighted sum of their reconstructions is the sum of W_full x (image of the full reconstruction) over the stack indices of all parts, an index counted once per part containing it; C04_submask_recombine is the case where the indices form a permutation",
+ "C04_integer_ramp_hermitian": "an integer-shift ramp is Hermitian on the index grid for EVERY grid size (so C04_hermitian_kernel_real_part_lossless applies to integer parallax shifts also on even grids)",
+}
+ext_src = open("/verif/coq/proof/C04_Proofs_Ext.v").read()
+ext = ["", "(* ==========================================================================================",
+       "   Round-3 extension: the kernel factors (gamma_factor, ramps) over an abstract character and aperture,",
+       "   Hermitian multipliers / lossless real part, fftfreq index convention, object state. *)",
+       "From QV.model Require Import C04_Gamma_Model.", "From QV.proof Require Import C04_Proofs_Ext.", ""]
+n_ext = 0
+for m in re.finditer(r"(?ms)^Lemma (C04_\w+)_main :\n(.*?)\.\nProof\.", ext_src):
+    name, st = m.group(1), m.group(2)
+    ext.append("(* %s *)\nTheorem %s :\n%s.\nProof. exact %s_main. Qed.\nPrint Assumptions %s.\n" % (EXT_COMMENTS[name], name, st, name, name))
+    n_ext += 1
+props.append("\n".join(ext))
+props.append(open("/verif/harness/C04_gen_ext_examples.v.txt").read())
 open("/verif/coq/props/C04_Properties.v", "w").write("\n".join(props))
-print(len(T), "theorems")
+print(len(T), "+", n_ext, "theorems")
